@@ -458,19 +458,25 @@ where
     let mut buffer = vec![0u8; bufsize];
     let prefix: String = sched["prefix"].as_str().unwrap_or("dt/dev").to_string();
     let localhost: core::net::IpAddr = "127.0.0.1".parse().unwrap();
-    let mut client = miniconf_mqtt::MqttClient::<S, _, _, minimq::broker::IpBroker, Y>::new(
-        Stack(wire.clone()),
-        &prefix,
-        clk.clone(),
+    // the constructor asserts that <prefix>/settings<longest path> fits a topic buffer: a refusal (panic) is reported
+    let (bufref, pref, w2, c2): (&mut [u8], &str, _, _) = (&mut buffer[..], &prefix, wire.clone(), clk.clone());
+    let built = std::panic::catch_unwind(std::panic::AssertUnwindSafe(move || miniconf_mqtt::MqttClient::<S, _, _, minimq::broker::IpBroker, Y>::new(
+        Stack(w2),
+        pref,
+        c2,
         {
-            let mut cfg = minimq::ConfigBuilder::new(localhost.into(), &mut buffer).keepalive_interval(sched["keepalive"].as_u64().unwrap_or(600) as u16);
+            let mut cfg = minimq::ConfigBuilder::new(localhost.into(), bufref).keepalive_interval(sched["keepalive"].as_u64().unwrap_or(600) as u16);
             if let Some(n) = sched["session"].as_u64() { cfg = cfg.session_state(minimq::config::BufferConfig::Exactly(n as usize)); }
             if let Some(n) = sched["tx"].as_u64() { cfg = cfg.tx_buffer(minimq::config::BufferConfig::Exactly(n as usize)); }
             cfg
         },
     )
-    .unwrap();
+    .unwrap()));
     let mut s = S::init(&sched["init"]);
+    let mut client = match built {
+        Ok(c) => c,
+        Err(_) => return json!({"steps": [], "leaves": leaf_values(&s), "new": "refused"}),
+    };
     let mut br = Broker { connack_queued: None, ack: true, suback: true, session_present: false, receive_max: sched["receive_max"].as_u64().map(|x| x as u16), held_acks: vec![] };
     let mut steps = vec![];
     let mut inflight: VecDeque<(u64, usize, Value)> = VecDeque::new();
